@@ -27,6 +27,8 @@ func init() {
 		Run: func(r *core.Run) {
 			c08AcquireIsNX(r)
 			optionGroups(r)
+			optionsCompose(r)
+			unitAgreement(r)
 			timeoutNeedsTTLMode(r)
 			c08TokenGuards(r)
 			c08Deadline(r)
